@@ -471,7 +471,7 @@ func c16Payload(n int, seed byte) []byte {
 
 func TestVerifC16Calls(t *testing.T) {
 	L := ev.Begin("C16", "c16-calls", "exploration",
-		"real stack: grpc.Server with fabio's options (main.newGrpcProxy: codec, transparent handler with GetGRPCDirector, stream interceptor) in front of two instrumented grpc_testing.TestService backends on loopback. call kind {unary, client-stream, server-stream, bidi} x request message sequences of <=3 payloads from {empty, 1B, 70kB} x reply sequences likewise x metadata {none, custom pair, binary -bin key, dsthost matching / not matching / twice} x backend outcome {OK, NotFound 'x', Internal, custom code 42} x with/without headers and trailers x every fourth call from a caller that gzip-compresses its messages (per-connection compressor, nothing registered process-wide); oracle: identity on messages, custom metadata, trailers, status code and message, headers when >=1 message was sent; no matching route -> NotFound and no backend contacted. non-trivial = every call")
+		"real stack: grpc.Server with fabio's options (main.newGrpcProxy: codec, transparent handler with GetGRPCDirector, stream interceptor) in front of two instrumented grpc_testing.TestService backends on loopback. call kind {unary, client-stream, server-stream, bidi} x request message sequences of <=3 payloads from {empty, 1B, 70kB} x reply sequences likewise x metadata {none, custom pair, binary -bin key, dsthost matching / not matching / twice} x backend outcome {OK, NotFound 'x', Internal, custom code 42, ResourceExhausted with format verbs, Unavailable} x with/without headers and trailers x every fourth call from a caller that gzip-compresses its messages (per-connection compressor, nothing registered process-wide); oracle: identity on messages, custom metadata, trailers, status code and message, headers when >=1 message was sent; no matching route -> NotFound and no backend contacted. non-trivial = every call")
 	r := newC16Rig()
 	host := "grpc.example"
 	table := fmt.Sprintf("route add svcA /grpc.testing.TestService grpc://%s opts \"proto=grpc\"\nroute add svcB %s/grpc.testing.TestService grpc://%s opts \"proto=grpc\"\n", r.a.addr, host, r.b.addr)
@@ -501,7 +501,10 @@ func TestVerifC16Calls(t *testing.T) {
 	outcomes := []struct {
 		code codes.Code
 		msg  string
-	}{{codes.OK, ""}, {codes.NotFound, "x"}, {codes.Internal, "boom: ünï"}, {codes.Code(42), "custom"}, {codes.ResourceExhausted, "disk is 100% full: %s %d %!v(MISSING)"}}
+	}{{codes.OK, ""}, {codes.NotFound, "x"}, {codes.Internal, "boom: ünï"}, {codes.Code(42), "custom"}, {codes.ResourceExhausted, "disk is 100% full: %s %d %!v(MISSING)"},
+		// the status a client library would retry on its own when it comes without headers or messages: the
+		// backend's answer is the caller's to see, and the backend is asked once
+		{codes.Unavailable, "try later"}}
 	kinds := []string{"unary", "client-stream", "server-stream", "bidi"}
 	n := 0
 	for _, k := range kinds {
